@@ -33,7 +33,7 @@ DICTS = {'none': ([], 4), 'a-ab': (['a', 'ab'], 1), 'dup': (['a', 'a'], 2)}
 BOUNDS = {
     'quick': {'configurations': CFGS_QUICK, 'corpora': sorted(CORPORA), 'dictionaries': sorted(DICTS), 'learner': 'stub: every build_model outcome (Err/Ok) of the first two learning problems, '
               'every order of the label list, coefficients from VERIF_SEED', 'evaluation text': '2 symbolic characters', 'tag dictionary': 'with and without'},
-    'thorough': {'configurations': 'all (cw, cn, tw, tn) in {0..3}^4 (type window 3 only with type n = 0 or char side (3,3)) plus (255,1,1,1)', 'corpora': sorted(CORPORA),
+    'thorough': {'configurations': 'all (cw, cn, tw, tn) in {0..3}^4 (type window 3 only with type n = 0 or char side (3,3)) plus (255,1,1,1) on three corpora without dictionary; the quick list on every corpus and dictionary', 'corpora': sorted(CORPORA),
                  'dictionaries': sorted(DICTS), 'evaluation text': '1..3 symbolic characters'},
 }
 OUTSIDE = ('non-finite learner coefficients; liblinear itself (stub); the floating-point range of the quantisation is posed to z3 as a stand-alone QF_FP query under a 60 s cap and reported '
@@ -49,9 +49,18 @@ TECHNIQUE = 'bounded symbolic execution of rustc MIR (mirsym + z3): evaluation t
 
 def jobs(tier, seed):
     cfgs = list(CFGS_QUICK)
+    grid = []
     if tier == 'thorough':
-        cfgs = [(a, b, c, d) for a in range(4) for b in range(4) for c in range(4) for d in range(4) if not (c == 3 and d > 0 and (a, b) != (3, 3))] + [(255, 1, 1, 1)]
+        grid = [(a, b, c, d) for a in range(4) for b in range(4) for c in range(4) for d in range(4) if not (c == 3 and d > 0 and (a, b) != (3, 3))] + [(255, 1, 1, 1)]
     js = [{'name': 'quantisation-range', 'kind': 'zquery'}]
+    # thorough (a): the whole grid of window / n-gram sizes on three corpora without dictionary
+    for cfg in grid:
+        if cfg in cfgs:
+            continue
+        for cn in ('abc-ba', 'tagged', 'all-nb'):
+            js.append({'name': 'train/%s/%s/%s' % ('-'.join(map(str, cfg)), cn, 'none'), 'kind': 'train', 'cfg': list(cfg), 'corpus': cn, 'dict': 'none', 'seed': seed,
+                       'tagdict': cn in ('tagged', 'partly-tagged')})
+    # quick and thorough (b): the configuration list on every corpus and dictionary
     for cfg in cfgs:
         for cn in sorted(CORPORA):
             for dn in sorted(DICTS):
